@@ -613,7 +613,11 @@ func runParse(c *Ctx, std *fdCapture) {
 	}
 	for _, q := range []string{"", " ", "\n", "// c", "/* c */", "\xef\xbb\xbf", "$.a.Equal(NaN)", "$.a.Equal(Inf)", "$.a.Equal(infinity)", "$.a.Equal(-Inf)", "$.a.Equal(1e400)",
 		"$.a?.b?.IsNull()", "$.a.Equal(.5)", "$.a.Equal(1.5.5)", "$.a.Equal(5.)", "$.a.Equal(1", "{$.a", "$[", "$.a.Equal (1)", "$.a.Equal(\"\\d+\")", "$.a.Equal('x')", "$.a.Equal(`r`)",
-		"$.a.Equal(\"un", "$.a.Equal(1,,2)", "$.a.Equal(1 2)", `$.a.Equal('\t')`, `$.a.Equal('a\nb')`, `$.a.Equal('\"')`, `$.a.Contains('x\ty', "z")`, `$.k.Equal('abc')`, `{$.k.Equal('\r')}`, "$.a.Equal(1.)", "$.a.Add(2.).Greater(10.)", "$.a.Sum(1.,2)", `$.xs.Select("@ . a")`, `$.xs[@.a.Less(100)].Select("@.b.AnyOf(1 2)")`, `$.xs.Select("$.a /*c*/ .b")`, `{$.xs.Select("@.a.AnyOf(1 2)").Any()}`, `$.k.Equal($.xs.Select("@ .a").First())`, "$.a.Equal(()", "$.a.Equal(])", "$.a.Equal(?)", "$.a.Equal(x?)", "$.a[@.b]", "$.a[@.b][@.c]", "$.a[OR,@.b,@.c]"} {
+		"$.a.Equal(\"un", "$.a.Equal(1,,2)", "$.a.Equal(1 2)", `$.a.Equal('\t')`, `$.a.Equal('a\nb')`, `$.a.Equal('\"')`, `$.a.Contains('x\ty', "z")`, `$.k.Equal('abc')`, `{$.k.Equal('\r')}`, "$.a.Equal(1.)", "$.a.Add(2.).Greater(10.)", "$.a.Sum(1.,2)", `$.xs.Select("@ . a")`, `$.xs[@.a.Less(100)].Select("@.b.AnyOf(1 2)")`, `$.xs.Select("$.a /*c*/ .b")`, `{$.xs.Select("@.a.AnyOf(1 2)").Any()}`, `$.k.Equal($.xs.Select("@ .a").First())`, "$.a.Equal(()", "$.a.Equal(])", "$.a.Equal(?)", "$.a.Equal(x?)", "$.a[@.b]", "$.a[@.b][@.c]", "$.a[OR,@.b,@.c]",
+		// percent signs in literals and names, inside groups and filters and outside
+		`{$.s.Suffix("%")}`, `$.list[@.s.Equal("50%d")].Count()`, `{$.s.Equal("100%%")}`, `{$.rate%.Equal(5)}`, `$.s.Equal("100%")`, `{OR,$.s.Sprintf("%s-%v",1),$.s.Contains("%!")}`, `$.list[OR,@.s.Prefix("%5"),@.s.Equal("%")]`,
+		// conditions that are not Boolean in front of other conditions
+		"{AND,$.tags.First(),$.ok}", "$.list[@.tags.First(),@.ok]", "{OR,$.tags.Last(),{AND,$.ok}}", "$.ok.Equal({OR,$.tags.Count(),$.ok})", "{$.a,{$.b}}", "{AND,$.a.Equal(1),{OR,$.b,$.c}}", "$.list[@.x.Equal(1),{OR,@.y,@.z}]"} {
 		emit(q, "named")
 	}
 	// a transient fault (the error once, then the data goes on) at every offset of queries in which the scanner is in the middle of
